@@ -7,7 +7,7 @@ SITE = {
  "read": "the recursive-descent parser (parse::parse / parse_list / parse_vector)",
  "drop": "the implicit recursive drop of boxed Cell data",
  "quote-evaluate": "the recursive datum -> heap conversion (Heap::put_cell / maybe_put_cell)",
- "build": "the collector's marker (Heap::mark recurses on car, closure environments, vectors and saved continuation stacks) or, for nested expressions, the recursive compiler",
+ "build": "the collector's marker (Heap::mark recurses on car, closure environments, vectors and saved continuation stacks) or, for nested expressions and recursive macro uses, the recursive compiler and macro transformer (Vm::transform: one native recursion per nested expansion, up to the limit of 1000)",
  "keep-live-across-collection": "the collector's marker (Heap::mark recurses on car, closure environments, vectors and saved continuation stacks)",
  "equal": "the recursive structural comparison (Vm::equal / compare_pair / compare_vector)",
  "write": "the recursive heap -> datum conversion (Heap::get_as_cell) and the recursive printer",
